@@ -226,6 +226,58 @@ struct TL {
 static thread_local TL tl;
 static void tl_body(void*) { tl.touch++; }
 
+
+// ---- x86-TSO engine litmus (store buffering) ----
+struct TsoS {
+  std::atomic<int> x{0}, y{0};
+  int r0 = 0, r1 = 0;
+};
+static TsoS* tso_s;
+static std::memory_order tso_st;
+static void tso_a(void*) {
+  tso_s->x.store(1, tso_st);
+  tso_s->r0 = tso_s->y.load(std::memory_order_seq_cst);
+}
+static void tso_b(void*) {
+  tso_s->y.store(1, tso_st);
+  tso_s->r1 = tso_s->x.load(std::memory_order_seq_cst);
+}
+static void tso_af(void*) {
+  tso_s->x.store(1, std::memory_order_release);
+  std::atomic_thread_fence(std::memory_order_seq_cst);
+  tso_s->r0 = tso_s->y.load(std::memory_order_acquire);
+}
+static void tso_bf(void*) {
+  tso_s->y.store(1, std::memory_order_release);
+  std::atomic_thread_fence(std::memory_order_seq_cst);
+  tso_s->r1 = tso_s->x.load(std::memory_order_acquire);
+}
+// message passing must never be reordered on TSO
+static void tso_mp_w(void*) {
+  tso_s->x.store(1, std::memory_order_relaxed);
+  tso_s->y.store(1, std::memory_order_relaxed);
+}
+static void tso_mp_r(void*) {
+  tso_s->r0 = tso_s->y.load(std::memory_order_relaxed);
+  tso_s->r1 = tso_s->x.load(std::memory_order_relaxed);
+}
+static std::set<std::string> tso_outcomes(ThreadFn f, ThreadFn g) {
+  std::set<std::string> out;
+  for (int e = 0; e < 2000; ++e) {
+    tso_s = new TsoS();
+    ThreadSpec sp[2];
+    sp[0].fn = f;
+    sp[1].fn = g;
+    RunCfg c;
+    c.seed = (uint64_t)e;
+    c.tso = true;
+    run(c, sp, 2);
+    out.insert(std::to_string(tso_s->r0) + std::to_string(tso_s->r1));
+    delete tso_s;
+  }
+  return out;
+}
+
 int main() {
   install_crash_handlers();
   const int N = 3000;
@@ -408,6 +460,20 @@ int main() {
     CHECK(S->z.load() == 3, "thread_local destructors ran: %d", S->z.load());
     delete S;
     S = nullptr;
+  }
+  // x86-TSO engine: store buffering visible exactly when the stores are not seq_cst and no full fence separates store and load
+  {
+    tso_st = std::memory_order_release;
+    auto o = tso_outcomes(tso_a, tso_b);
+    CHECK(o.count("00"), "TSO: SB with release stores must show r0=r1=0");
+    tso_st = std::memory_order_seq_cst;
+    o = tso_outcomes(tso_a, tso_b);
+    CHECK(!o.count("00"), "TSO: SB with seq_cst stores must not show r0=r1=0");
+    o = tso_outcomes(tso_af, tso_bf);
+    CHECK(!o.count("00"), "TSO: SB with a seq_cst fence must not show r0=r1=0");
+    o = tso_outcomes(tso_mp_w, tso_mp_r);
+    CHECK(!o.count("10"), "TSO: message passing must not be reordered (saw y=1, x=0)");
+    CHECK(o.count("11") && o.count("00"), "TSO: MP outcomes explored");
   }
   const Stats& st = stats();
   printf("selftest: episodes=%llu steps=%llu switches=%llu stale_reads=%llu stale_sites=%llu spurious=%llu "
